@@ -8,6 +8,8 @@ here="$(cd "$(dirname "$0")" && pwd)"
 tmp="$(mktemp -d)"; trap 'rm -rf "$tmp"' EXIT
 case "$which" in
   check) pkg=internal/check; src=check_findings_test.go;;
+  expand) pkg=internal/expand; src=expand_findings_test.go;;
+  relationtuple) pkg=internal/relationtuple; src=relationtuple_findings_test.go;;
   *) echo "unknown replay set $which"; exit 2;;
 esac
 cat > "$tmp/ov.json" <<EOT
